@@ -159,7 +159,9 @@ func H_C13_Serial() {
 	vReach("c13.start")
 	// Known finding (by design in this version): reads and pops inside a write transaction see only the
 	// committed state, not the transaction's own pending writes; SMove mutates immediately.
-	vKnown("KF-C13-pending-writes-invisible", dependsOnPending(ops))
+	region := dependsOnPending(ops)
+	vKnown("KF-C13-pending-writes-invisible", region)
+	vKnown("KF-C06-pending-writes-invisible", region)
 	// A: all operations in one transaction
 	type res struct {
 		errNil bool
@@ -221,19 +223,43 @@ func stateDependent(kind int) bool {
 	return false
 }
 
-// dependsOnPending: some operation depends on the contents of a structure that an earlier operation of
-// the same transaction has written (or SMove, which mutates the set at call time, precedes another set
-// operation).
+// dependsOnPending: some operation reads (for its result or its validity) a part of a structure that an
+// earlier operation of the same transaction has written. The read sets follow what the code looks at:
+// list operations and pops look at the whole list / set / sorted set of their key; SMove looks only at
+// the membership of its item in the source set; plain adds and removes read nothing.
 func dependsOnPending(ops []*sOp) bool {
+	dep := false
 	for j := 1; j < len(ops); j++ {
 		for i := 0; i < j; i++ {
-			if structureOf(ops[i].kind) != structureOf(ops[j].kind) {
+			a, b := ops[i], ops[j]
+			if structureOf(a.kind) != structureOf(b.kind) || !stateDependent(b.kind) {
 				continue
 			}
-			if stateDependent(ops[j].kind) || ops[i].kind == opSMove {
-				return true
+			if b.kind == opSMove {
+				switch a.kind {
+				case opSAdd:
+					// an earlier SAdd may create the source or destination key, whose existence SMove checks
+					if string(a.dsKey) == string(b.dsKey) || string(a.dsKey) == string(b.dsKey2) {
+						dep = true
+					}
+				case opSRem:
+					if string(a.dsKey) == string(b.dsKey) {
+						dep = vOr(dep, vEqBytes(a.val, b.val))
+					}
+				case opSMove:
+					dep = vOr(dep, vEqBytes(a.val, b.val))
+				case opSPop:
+					if string(a.dsKey) == string(b.dsKey) {
+						dep = true
+					}
+				}
+				continue
 			}
+			if b.kind == opSPop && string(a.dsKey) != string(b.dsKey) && (a.kind != opSMove || string(a.dsKey2) != string(b.dsKey)) {
+				continue
+			}
+			dep = true
 		}
 	}
-	return false
+	return dep
 }
